@@ -62,6 +62,7 @@ type Node struct {
 	up       bool
 	mnet     *memberlist.MockNetwork
 	gen      int
+	abandoned int // replication managers whose Close did not return in bounded time (see closeRepl)
 }
 
 func raftAddr(cluster string, id uint64) string {
@@ -201,15 +202,34 @@ func (n *Node) start() error {
 }
 
 // stop shuts the node down cleanly.
+// closeRepl closes the replication manager, but does not wait for ever: a worker that is inside a snapshot
+// restore retries a failing proposal without limit (backoff with MaxElapsedTime 0), so Close never returns
+// once the node host is gone or the shard stays without a leader. The goroutine of the dead (or shut down)
+// process is then left behind; it can only talk to the closed node host. Reported as a probe, not judged:
+// no listed property is about shutdown latency.
+func (n *Node) closeRepl(bound time.Duration) {
+	if n.repl == nil {
+		return
+	}
+	done := make(chan struct{})
+	go func(m *replication.Manager) {
+		m.Close()
+		close(done)
+	}(n.repl)
+	select {
+	case <-done:
+	case <-time.After(bound):
+		n.abandoned++
+	}
+	n.repl = nil
+}
+
 func (n *Node) stop() {
 	if !n.up {
 		return
 	}
 	n.up = false
-	if n.repl != nil {
-		n.repl.Close()
-		n.repl = nil
-	}
+	n.closeRepl(10 * time.Minute)
 	n.srv.Stop()
 	_ = n.lis.Close()
 	if n.conn != nil {
@@ -235,10 +255,7 @@ func (n *Node) crash() {
 	n.fs.OnOp, n.fs.Inject = nil, nil
 	n.engine.NodeHost.Kill()
 	// tear down the goroutines of the dead process (they act on the abandoned file system)
-	if n.repl != nil {
-		n.repl.Close()
-		n.repl = nil
-	}
+	n.closeRepl(30 * time.Second)
 	n.srv.Stop()
 	_ = n.lis.Close()
 	if n.conn != nil {
